@@ -124,7 +124,11 @@ def make_case(unit):
     facets = cases.random_facets(g, template, N, sizes=sizes, p_zero=0.1)
     tr = {}
     if g.chance(0.5):
-        cases.attach_insertions(g, facets, tr, hide_some=False, disjoint=True)
+        # on strands often both on the variable and in the analysis (the analysis wins: which
+        # rows are differences is decided by the insertions actually displayed)
+        cases.attach_insertions(g, facets, tr, hide_some=False, disjoint=True,
+                                placement="both" if nparts == 1 and gen.stratum(
+                                    ID, i, "both", 2) else None)
     if nparts == 1 and facets[0][0] == "cat" and g.chance(0.5):
         # several differences on one strand (two or more used to break population_counts)
         v = facets[0][1]
